@@ -218,6 +218,20 @@ known("F7c", ["C02", "C18"],
       ["missing_outcome_cas_order"], "label:operational_order",
       case("C02", "known", JOIN2 + "ld(x0,rlx); ld(x1,rlx) || t1: fadd(x0,1,rlx); st(x1,1,rlx) || t2: ld(x1,rlx); cas(x0,5,6,rlx,rlx)"))
 
+fixed("F15", ["C06"], "f79a53d",
+      "a model that panics while a lazy static has been initialised (or while an unfinished thread owns thread-locals) dropped these "
+      "values outside the model; a value owning a loom::sync::Arc then panicked in its destructor during unwinding and the process aborted",
+      ["process_abort", "unexpected_panic", "later_run_not_clean"],
+      case("C06", "corpus", "t0: spawn(1); TlsBump(k=1); LazyGet(k=1); PanicIf(v=-1) || t1: TlsBump(k=1); LazyGet(k=1); Yield", x={"mode": "user_panic"},
+           cfg={"max_permutations": 3000, "checkpoint_interval": 1}))
+fixed("F16", ["C13", "C16"], "f9cd2a2",
+      "thread-locals of a thread and the lazy statics of an execution were destroyed in hash-map iteration order, which differs from "
+      "process to process; destructors that perform loom operations (dropping a loom::sync::Arc) made the explored executions depend on the process",
+      ["depends_on_other_models", "nondeterministic", "resume_differs", "first_run_differs"],
+      case("C16", "corpus", "t0: spawn(1); TlsNested(k=0); st(x0,2,sc); LazyGet(k=1); LazyGet(k=0); join(1) || t1: TlsNested(k=1); ld(x0,sc); LazyGet(k=0)",
+           x={"mode": "seq", "n": 2, "prog2": prog("t0: spawn(1); TlsBump(k=0) || t1: Yield")},
+           cfg={"max_permutations": 400, "checkpoint_interval": 1}))
+
 if __name__ == "__main__":
     out = os.path.join(os.path.dirname(os.path.abspath(__file__)), "..", "known_findings.json")
     json.dump({"findings": F}, open(out, "w"), indent=1)
